@@ -1,6 +1,7 @@
 #!/bin/bash
 # Runs every quick check on the unchanged /repo tree, rewrites the evidence, regenerates and validates MANIFEST.json.
 # Use before every commit that should carry evidence.  Exit 0 only if every check exits 0.
+if [ -n "$(git -C ${VERIF_REPO:-/repo} status --short)" ]; then echo "selfcheck: the working tree of /repo is not clean — refusing to regenerate evidence"; exit 2; fi
 cd "$(dirname "$0")"
 [ -z "$(git -C /repo status --porcelain -- src)" ] || { echo "/repo/src is modified: refusing"; exit 2; }
 unset VERIF_EVIDENCE_DIR
